@@ -58,6 +58,32 @@ Theorem draw_bool_global m sg rg cu :
   (sg = 0 -> yields Gl 50 (CFun src_LOSDistribution_draw_bool) (Some (los_obj false true)) [VList [dict [("mean", num m); ("sigma", num sg)]]] [] rg cu (VBool false) cu [])
   /\ (sg <> 0 -> yields Gl 50 (CFun src_LOSDistribution_draw_bool) (Some (los_obj false true)) [VList [dict [("mean", num m); ("sigma", num sg)]]] [] rg cu (VBool true) cu []).
 Proof. split; intros H; yields_auto. Qed.
+(* the constructor binds the object to ITS OWN population of the list (the one at index global_los_distribution) or, without a global
+   population, to its individual law; index 0 is a valid population (the flag is `False` only for the boolean False) *)
+Definition Gc9 : fenv := FEnv (fun _ _ => None)
+  (fun n => if String.eqb n "GEV" then Some (CClass "GEV" src_GEV_init)
+            else if String.eqb n "PDFSampling" then Some (COracle (fun args kws w => Ok (VObj "PDFSampling" kws, w))) else None).
+Theorem los_ctor_global_population (d0 d1 d2 : string) rg cu :
+  yields Gc9 60 (CClass "LOSDistribution" src_LOSDistribution_init) None [] [("global_los_distribution", VInt 1); ("los_distributions", VList [VStr d0; VStr d1; VStr d2])] rg cu
+    (VObj "LOSDistribution" [("_global_los_distribution", VInt 1); ("_draw_kappa_global", VBool true); ("_los_distribution", VStr d1); ("_draw_kappa_individual", VBool false)]) cu []
+  /\ yields Gc9 60 (CClass "LOSDistribution" src_LOSDistribution_init) None [] [("global_los_distribution", VInt 0); ("los_distributions", VList [VStr d0; VStr d1; VStr d2])] rg cu
+    (VObj "LOSDistribution" [("_global_los_distribution", VInt 0); ("_draw_kappa_global", VBool true); ("_los_distribution", VStr d0); ("_draw_kappa_individual", VBool false)]) cu [].
+Proof. split; yields_auto. Qed.
+Theorem los_ctor_individual_gev xi m sg (ld : val) rg cu :
+  yields Gc9 60 (CClass "LOSDistribution" src_LOSDistribution_init) None []
+    [("global_los_distribution", VBool false); ("los_distributions", ld); ("individual_distribution", VStr "GEV");
+     ("kwargs_individual", dict [("xi", num xi); ("mean", num m); ("sigma", num sg)])] rg cu
+    (VObj "LOSDistribution" [("_global_los_distribution", VBool false); ("_draw_kappa_global", VBool false);
+                             ("_kappa_dist", VObj "GEV" [("_xi", num xi); ("_mean", num m); ("_sigma", num sg)]); ("_draw_kappa_individual", VBool true)]) cu [].
+Proof. yields_auto. Qed.
+(* a global population wins over an individual law (the individual one is then not even built); neither -> no draw *)
+Theorem los_ctor_global_wins_and_none (ld ki : val) rg cu :
+  yields Gc9 60 (CClass "LOSDistribution" src_LOSDistribution_init) None []
+    [("global_los_distribution", VInt 0); ("los_distributions", VList [VStr "GAUSSIAN"]); ("individual_distribution", VStr "GEV"); ("kwargs_individual", ki)] rg cu
+    (VObj "LOSDistribution" [("_global_los_distribution", VInt 0); ("_draw_kappa_global", VBool true); ("_los_distribution", VStr "GAUSSIAN"); ("_draw_kappa_individual", VBool false)]) cu []
+  /\ yields Gc9 60 (CClass "LOSDistribution" src_LOSDistribution_init) None [] [("global_los_distribution", VBool false); ("los_distributions", ld)] rg cu
+    (VObj "LOSDistribution" [("_global_los_distribution", VBool false); ("_draw_kappa_global", VBool false); ("_draw_kappa_individual", VBool false)]) cu [].
+Proof. split; yields_auto. Qed.
 End LOS.
 
 (* ---------- the tabulated PDF: cumulative normalised histogram ---------- *)
